@@ -18,6 +18,14 @@ def canon_slices(s: str) -> str:
     return s.replace("[1:][:-1]", "[1:-1]").replace("[1:None:None][None:-1:None]", "[1:-1]")
 
 
+def canon_pattern(p: Any) -> str:
+    """regex text normalised through the regex parser (spelling of escapes is immaterial)"""
+    try:
+        return repr(rx.parse(str(p)))
+    except AnalysisError:
+        return str(p)
+
+
 def slot(h: Hole) -> str:
     if h.base is not None:
         op = h.xform[-1] if h.xform else "?"
@@ -27,7 +35,7 @@ def slot(h: Hole) -> str:
         return "OP"
     if h.kind == "match":
         subj = h.meta.get("subject")
-        return f"M<{h.meta.get('pattern')}|{desc(subj) if isinstance(subj, Str) else '?'}>"
+        return f"M<{canon_pattern(h.meta.get('pattern'))}|{desc(subj) if isinstance(subj, Str) else '?'}>"
     m = h.meta
     if m.get("op") == "replace" and isinstance(m.get("of"), Str):
         old, new = m["args"]
@@ -74,7 +82,7 @@ def normaliser_paths(I: Interp) -> List[Path]:
     return I.explore(thunk)
 
 
-M = r"M<\([^\)]*\)|OP>"
+M = "M<" + canon_pattern(r"\([^\)]*\)") + "|OP>"
 SPEC = {
     "R3": f"[(split(OP,',')[0] minus '(')+split(OP,',')[1]*(split(OP,',')[2] minus ')')]",
     "R1": "[OP[1:-1]]",
